@@ -107,13 +107,64 @@ def main():
     for i in range(len(progs)):
         res[i]['bytes'].append(build(i))
     check('after-library-use')
+    # (5b) description reads (SynthDesc.new_from / SynthDef.add / SynthDesc._read_stream) that succeed or fail:
+    #      a definition using a UGen class that is not in installed_ugens, truncated and corrupt bytes.
+    import io
+    from sc3.synth.synthdef import SynthDef
+    from sc3.synth.synthdesc import SynthDesc
+    import sc3.synth.ugen as ugn
+    from sc3.synth.ugens.inout import Out
+
+    class VerifUnregistered(ugn.UGen):       # a user-defined UGen subclass, not registered in installed_ugens
+        @classmethod
+        def ar(cls, freq=440.0):
+            return cls._multi_new('audio', freq)
+
+    def reads():
+        out = []
+        def attempt(label, f):
+            try:
+                f()
+                out.append([label, 'ok'])
+            except BaseException as e:   # noqa
+                if isinstance(e, (KeyboardInterrupt, SystemExit)):
+                    raise
+                out.append([label, type(e).__name__])
+            check('after-read-' + label + '-' + out[-1][1])
+        try:
+            sdu = SynthDef('verif_unreg', lambda: Out.ar(0, VerifUnregistered.ar(300)))
+        except Exception as e:
+            out.append(['build-unregistered', type(e).__name__])
+            return out
+        attempt('newfrom_unregistered', lambda: SynthDesc.new_from(sdu))
+        attempt('add_unregistered', lambda: sdu.add())
+        if okp:
+            good = SynthDef('verif_good', L.make_func(progs[okp[0]]))
+            raw = bytes(good.as_bytes())
+            attempt('newfrom_good', lambda: SynthDesc.new_from(good))
+            attempt('truncated', lambda: SynthDesc._read_stream(io.BytesIO(raw[:len(raw) * 2 // 3])))
+            bad = bytearray(raw)
+            # corrupt the first UGen class name (after the def name, constants and controls there is the ugen list)
+            pos = raw.find(b'Control') if b'Control' in raw else -1
+            for nm in (b'SinOsc', b'Saw', b'Out', b'BinaryOpUGen', b'WhiteNoise', b'LFNoise0', b'DC'):
+                if nm in raw:
+                    pos = raw.find(nm)
+                    break
+            if pos >= 0:
+                bad[pos] = ord('Z')
+                attempt('corrupt_classname', lambda: SynthDesc._read_stream(io.BytesIO(bytes(bad))))
+        return out
+    read_log = reads()
+    for i in range(len(progs)):
+        res[i]['bytes'].append(build(i))
+    check('after-reads')
     # (6) BaseException probe -- observation only; the context is reset by hand afterwards
     probe = {}
     d, sd = L.build({'ins': [['U', 'Saw', 'audio', [['c', '1']]], ['raise', 'base']]}, 'base')
     probe['ctx'] = L.ctx_state()
     probe['outside_has_no_def'] = L.outside_ugen_has_no_def()
     m.main._current_synthdef = None
-    json.dump({'progs': res, 'ctx': ctxlog, 'base_probe': probe, 'thread_errors': terrs,
+    json.dump({'progs': res, 'ctx': ctxlog, 'base_probe': probe, 'thread_errors': terrs, 'reads': read_log,
                'catalogue_bad': L.check_catalogue()}, open(sys.argv[2], 'w'))
     sys.stdout.flush()
     os._exit(0)      # RT mode keeps non-daemon threads alive
